@@ -407,6 +407,33 @@ func (e *Engine) checkFinalTTL(snap *ristretto.VerifSnap[*Val], now time.Time, p
 	}
 }
 
+// checkSteadyTTL (C14 "eventually", steady clock): the epilogue has advanced
+// the clock in steps of half an expiry-bucket width (a width this run set
+// through the harness knob), writing and waiting at every step, for twice the
+// bucket width plus twice the ticker period and a margin. With the clock
+// moving steadily - no long gaps that would make a sweep look at many periods
+// at once - every entry whose TTL had already elapsed when the phase began
+// must have been reclaimed by now.
+func (e *Engine) checkSteadyTTL() {
+	if e.steadyT0 == 0 {
+		return
+	}
+	n := int(atomic.LoadInt32(&e.nvals))
+	for i := 0; i < n; i++ {
+		v := e.vals[i]
+		if v == nil || v.Accepted != 1 || v.TTL <= 0 || v.RetT == 0 {
+			continue
+		}
+		if satAdd(v.RetT, v.TTL) >= e.steadyT0 {
+			continue // had not certainly expired when the phase began
+		}
+		probe(PrSteadyChecked)
+		if v.NExit == 0 {
+			e.violate("C14", "expired-never-reclaimed", fmt.Sprintf("value %d (key %d, ttl %v) had expired before the clock started to move steadily (%v of simulated time in steps of half a bucket width, a write and a Wait at each) and still has not been released", v.ID, v.Key, time.Duration(v.TTL), time.Duration(time.Now().UnixNano()-e.steadyT0)), 0)
+		}
+	}
+}
+
 func (e *Engine) checkEmpty() {
 	// precondition of the property's last sentence: every key has been
 	// deleted, expired-and-swept or cleared
